@@ -228,9 +228,51 @@ def generate(ctx):
                          "hidden_children": st["hidden_children"], "raised": raised},
                 "_views_term": None,
             })
+        # ---- beyond the model's invariant: PRESENT rows whose lists are null (pa.array([{'a': None, 'b': None}]): the
+        # constructor accepts them; the library's views read a null list as an empty one).  No Coq term: wf_b excludes the
+        # layout; the views are compared with one another here.
+        for j in range(ctx.budget(12, 80)):
+            schema, rows = gen.gen_content(rng, max_rows=6, max_len=4)
+            ca = gen.make_layout(rng, schema, rows, "empty_as_null")
+            verdict = attempt(lambda: null_list_views(ca, rows))
+            ok = verdict[0] == "ok" and verdict[1] == []
+            cases.append({"cid": len(cases), "stream": "views", "op": "views_null_lists", "term": f"[true; {core.cq_bool(ok)}; true; true]",
+                          "input": {"schema": schema, "rows": _rows_repr(rows), "layout": "empty_as_null"},
+                          "impl_repr": str(verdict)[:400], "meta": {"layout": "empty_as_null", "impl_raised": verdict[0] == "err"},
+                          "sig": ["empty_as_null", len(rows), len(schema), j], "trivial": not any(r is not None and not any(len(v) for v in r.values()) for r in rows),
+                          "hist": {"layout": "empty_as_null", "rows": len(rows), "fields": len(schema), "chunks": 1, "hidden_children": False,
+                                   "raised": verdict[0] == "err"}, "_views_term": None})
     finally:
         shutil.rmtree(tmpdir, ignore_errors=True)
     return cases
+
+
+def null_list_views(ca, rows):
+    """the views of a column whose empty rows are stored as present rows of null lists agree with one another"""
+    arr = NEA(ca)
+    s = pd.Series(arr, name="n")
+    want = [0 if r is None else len(next(iter(r.values()))) for r in rows]
+    problems = []
+    if [int(x) for x in arr.list_lengths] != want:
+        problems.append(f"list_lengths {list(arr.list_lengths)} != {want}")
+    if arr.flat_length != sum(want):
+        problems.append("flat_length")
+    if [bool(x) for x in arr.isna()] != [r is None for r in rows]:
+        problems.append("isna")
+    boxed = [(None if (t is None or t is pd.NA) else len(t)) for t in arr]
+    if boxed != [None if r is None else len(next(iter(r.values()))) for r in rows]:
+        problems.append(f"per-row tables have {boxed} rows")
+    flat = s.nest.to_flat()
+    if len(flat) != sum(want):
+        problems.append("to_flat length")
+    idx = [int(x) for x in arr.get_list_index()]
+    if idx != [i for i, k in enumerate(want) for _ in range(k)]:
+        problems.append("get_list_index")
+    for t, r in zip(arr, rows):
+        if r is not None and list(t.columns) != list(r.keys()):
+            problems.append("columns of a per-row table")
+            break
+    return problems
 
 
 def _rows_repr(rows):
